@@ -3,6 +3,7 @@ package grpd
 import (
 	"fmt"
 	"reflect"
+	"runtime/debug"
 
 	"github.com/sarchlab/akita/v5/hooking"
 	"github.com/sarchlab/akita/v5/messaging"
@@ -408,6 +409,7 @@ func init() {
 			"all ports have equal incoming and outgoing capacity (modeling.PortSpec has one BufSize)",
 		},
 		Run: func(c *lib.Ctx) {
+			debug.SetGCPercent(1600) // tiny live heap, millions of short cases: fewer GC cycles
 			lib.Cases(c, func(yield func(c10Case) bool) { enumC10(c, yield) }, runC10)
 		},
 		Replay: lib.ReplayCases(runC10),
